@@ -36,12 +36,12 @@ CHECKS = {
  "C23": ("model_checking", "TLC enumerates a generated family of script ASTs incl. ill-scoped ones (2.5k quick, >100k thorough); each is rendered and parsed by the real parser; TLC checks Ok => WellScoped (FnSpec!WellScoped, the weak textual reading) and totality of the call.", "TLA+ enumeration of ASTs + trace validation against FnSpec!WellScoped"),
  "C24": ("model_checking", "TLC enumerates JSON values (depth <= 2) x lens paths (length <= 2 quick, <= 3 thorough, incl. accessors taken from scalars and .length); each is applied by the real interpreter inside an xor; TLC compares branch and value with plain JSON navigation AirValues!Nav.", "TLA+ enumeration + trace validation against AirValues!Nav"),
  "C28": ("model_checking", "For the same AST family the beautifier's output is split into (indentation depth, text) lines by an independent reader and compared by TLC with FnSpec!Shape (one line per instruction in order, depth = nesting with sequences flattened, keywords and operands).", "TLA+ enumeration + trace validation against FnSpec!Shape"),
- "C27": ("model_checking", "After every recorded run the produced data, request map and result map are re-encoded and decoded by the real codecs; TLC checks the round-trip facts (Props!C27).", "TLA+ trace validation; recode probe; invariant Props!C27"),
+ "C25": ("model_checking", "TLC enumerates (a) 8 JSON values x 6 construction routes (re-parsed, pretty-printed and re-parsed, object keys inserted forwards / backwards, via serde_json::Value) and (b) the verification decision table 8 values x 14 id mutations (exact blake3 / sha2, other hash codes, truncated digests, single bit flips, digest of another value, raw / dag-cbor codec, garbage, swapped hash code) for both the typed and the raw verifier; the harness builds the ids itself (own multibase/CIDv1 encoder, sha2 and blake3 crates) and calls the real functions; TLC validates FnSpec!CidExpect. The hash functions themselves are not modelled.", "TLA+ enumeration of the decision table + trace validation (FnSpec!CidCases)"),
+ "C27": ("model_checking", "After every recorded run the produced data, request map and result map are re-encoded and decoded by the real codecs and TLC checks the round-trip facts (Props!C27); plus the table FnSpec!CodecCases enumerated by TLC: payload x codec tag (right, json, cbor, absent, truncated, empty) x body (intact, corrupt) and envelope outer x inner corruption, validated against FnSpec!CodecExpect (decodes exactly iff right tag and intact body; versions readable iff the outer encoding is intact).", "TLA+ trace validation; recode probe; invariant Props!C27"),
 }
 
 NOT_YET = {
- "C25": "function-level specification not built yet",
- "C26": "function-level specification not built yet",
+ "C26": "what the property is about (exact i64/u64/f64 printing and parsing, string escaping, number comparison) lies outside TLC's value domain (32-bit integers, no floats, no string primitives); an explicit TLA+ model could only enumerate tree shapes over named atoms and would reduce to comparing two Rust JSON implementations, so the technique does not decide it (DESIGN.md section 7)",
 }
 
 def main():
